@@ -676,6 +676,41 @@ def exec_merge(case, obs):
     obs.outcome = (k, sizes_kind, digest([np.asarray(got)], ["merged.mrc"] if with_file else []))
 
 
+def exec_crop_centre(case, obs):
+    """"The central window" needs ONE definition of the centre: for an image edge N and a window edge n either pixel N//2
+    lands on window pixel n//2 (cryoCAT's box-centre convention) or pixel (N-1)//2 lands on (n-1)//2.  Each single crop
+    with an odd margin is compatible with exactly one of the two; all crops of one image must agree on it."""
+    from cryocat import tiltstack as ts
+
+    (w, h, dtype), seed = case
+    clean_cwd()
+    S = stack(2, w, h, dtype, seed)
+    agree = {"x": {"N//2": True, "(N-1)//2": True}, "y": {"N//2": True, "(N-1)//2": True}}
+    seen = {"x": [], "y": []}
+    for axis, full, other in (("x", w, h), ("y", h, w)):
+        for n2 in range(1, full + 1):
+            kw = {"new_width": n2, "new_height": None} if axis == "x" else {"new_width": None, "new_height": n2}
+            with quiet():
+                r = np.asarray(obs.lib("crop", ts.crop, S, input_order="zyx", output_order="zyx", **kw))
+            want_shape = (2, h, n2) if axis == "x" else (2, n2, w)
+            if not obs.check(r.shape == want_shape, "crop", "crop-central-window", f"{axis}: {full} -> {n2}: shape {r.shape}, expected {want_shape}"):
+                continue
+            starts = [s0 for s0 in range(0, full - n2 + 1)
+                      if np.array_equal(r, S[:, :, s0:s0 + n2] if axis == "x" else S[:, s0:s0 + n2, :])]
+            if not obs.check(len(starts) == 1, "crop", "crop-central-window", f"{axis}: {full} -> {n2}: result is not a contiguous window of the image"):
+                continue
+            s0 = starts[0]
+            seen[axis].append((n2, s0))
+            agree[axis]["N//2"] &= s0 == full // 2 - n2 // 2
+            agree[axis]["(N-1)//2"] &= s0 == (full - 1) // 2 - (n2 - 1) // 2
+    for axis, full in (("x", w), ("y", h)):
+        obs.check(any(agree[axis].values()), "crop", "crop-one-centre-definition",
+                  lambda: f"{axis} edge {full}: window starts (new size, start) {seen[axis]} follow neither 'pixel N//2 -> n//2' nor 'pixel (N-1)//2 -> (n-1)//2' throughout",
+                  "odd-margins")
+    obs.nontrivial = True
+    obs.outcome = (w, h, tuple(k for k, v in agree["x"].items() if v), tuple(k for k, v in agree["y"].items() if v))
+
+
 def families(tier, seed):
     quick = tier == "quick"
     ns = [2, 3, 4] if quick else [2, 3, 4, 5, 6]
@@ -716,6 +751,10 @@ def families(tier, seed):
     fams.append(Family("merge-parts", Mapped(Product(mcases, [("zyx", False), ("xyz", True), ("zyx", True)]), lambda c: (c[0], c[1], seed)), exec_merge,
                        describe=lambda c: {"part_files": c[0][0], "tilts_per_part": c[0][1], "naming": c[0][2], "dtype": c[0][3], "output_order": c[1][0], "output_file": c[1][1]},
                        expect=("merge-concatenates-in-numeric-order", "file-values")))
+    csz = [(w_, h_) for w_ in range(4, 13) for h_ in range(4, 13)] if quick else [(w_, h_) for w_ in range(4, 41, 1) for h_ in (4, 5, 12, 13, 27, 40)]
+    fams.append(Family("crop-centre-consistency", Mapped(Product([(w_, h_, dt) for (w_, h_) in csz for dt in dtypes]), lambda c: (c[0], seed)), exec_crop_centre,
+                       describe=lambda c: {"width": c[0][0], "height": c[0][1], "dtype": c[0][2], "crops": "every new width at full height, every new height at full width"},
+                       expect=("crop-one-centre-definition",), min_outcomes=1))
     if not quick:
         big = (25, 40, 28)
         bops = []
